@@ -4,3 +4,5 @@ import Photon.Lemmas.RangeSplit
 import Photon.Properties.C15
 import Photon.Model.Path
 import Photon.Properties.C20
+import Photon.Model.Iov
+import Photon.Properties.C14
